@@ -297,7 +297,7 @@ def orbit_invariant(b):
     check("set_stellar_distance[instance;stellar]", "set_stellar_distance", "distance", False, "instance", True, stellar_kw=False)
     # what the orbit REPORTS: every getter returns the stored value of the slot that the setters write for the same signature (index, instance, name,
     # host instance = the host's tide raiser; for_stellar_orbit = the host's slot 0), and reading changes nothing
-    def check_getter(method, field, addressing, stellar):
+    def check_getter(method, field, addressing, stellar, stellar_kw=True):
         o, old, worlds, star = mk_orbit(False)
         sig = {"index": sp.Integer(1), "instance": worlds[1], "host": worlds[0], "name": "w1"}[addressing]
         slot = 0 if stellar else {"index": 1, "instance": 1, "host": 2, "name": 1}[addressing]
@@ -309,7 +309,7 @@ def orbit_invariant(b):
         b.functions[mfn.key] = mfn.info()
         ex = Exec(mfn, pre=pre, contracts=contracts, globals_env=genv, opts=dict(max_recursion=3))
         env = dict(self=o, world_signature=sig)
-        if stellar:
+        if stellar and stellar_kw:
             env["for_stellar_orbit"] = True
         try:
             paths = ex.run(env)
@@ -330,13 +330,17 @@ def orbit_invariant(b):
         for addressing in ("index", "instance", "host", "name"):
             check_getter(method, field, addressing, False)
         check_getter(method, field, "host", True)
+    # the stellar distance every world of a non-star-host orbit reports is the one set_stellar_distance stores: the host's slot 0, whoever asks
+    for addressing in ("index", "instance", "host", "name"):
+        check_getter("get_stellar_distance", "a", addressing, True, stellar_kw=False)
     # an eccentricity update is not an update of a, n or P: it leaves all of them as they were (so Kepler III keeps holding)
-    for addressing, stellar in (("index", False), ("instance", False), ("host", False), ("host", True)):
+    for emeth, addressing, stellar in (("set_eccentricity", "index", False), ("set_eccentricity", "instance", False), ("set_eccentricity", "host", False), ("set_eccentricity", "host", True),
+                                       ("set_stellar_eccentricity", "host", False), ("set_stellar_eccentricity", "instance", False), ("set_stellar_eccentricity", "index", False)):
         o, old, worlds, star = mk_orbit(False)
         sig = {"index": sp.Integer(1), "instance": worlds[1], "host": worlds[0]}[addressing]
-        c, node = cls.lookup("methods", "set_eccentricity")
+        c, node = cls.lookup("methods", emeth)
         if node is None:
-            break
+            continue
         mfn = MethodFn(c, node)
         b.functions[mfn.key] = mfn.info()
         ex = Exec(mfn, pre=pre, contracts=contracts, globals_env=genv, opts=dict(max_recursion=3))
@@ -353,7 +357,7 @@ def orbit_invariant(b):
             b.subset_exits.append(f"{mfn.key} ({addressing}): {[p_.outcome for p_ in paths]}")
             continue
         A, N, P = o._attrs["_semi_major_axes"], o._attrs["_orbital_frequencies"], o._attrs["_orbital_periods"]
-        ground(b, f"{mfn.key}::set_eccentricity[{addressing}{';stellar' if stellar else ''}]::frame", mfn.key, "frame: an eccentricity update leaves a, n, P of every slot unchanged",
+        ground(b, f"{mfn.key}::{emeth}[{addressing}{';stellar' if stellar else ''}]::frame", mfn.key, "frame: an eccentricity update leaves a, n, P of every slot unchanged",
                all(X[j] == old[k][j] for X, k in ((A, "a"), (N, "n"), (P, "P")) for j in range(3)))
     # frame assumption on orbit_changed: it must not store into the orbital arrays
     for cname, rel in (("OrbitBase", FO), ("PhysicsOrbit", "TidalPy/structures/orbit/physics.py")):
